@@ -109,7 +109,7 @@ theorem sum_ite_ne (K : List Label) (hK : K.Nodup) (v : Label) (hv : v ∈ K) (f
 
 /-- **`remove_variable(v)` removes exactly the terms that mention `v`** -/
 theorem removeVariable_evalL {m : LBqm Rat} (g : GInv m) (v : Label) (nv : ODict Label Rat) (hv : ODict.get? m.adj v = some nv) :
-    ∃ m', m.removeVariable v = .ok m' ∧ GInv m' ∧ m'.vt = m.vt ∧
+    ∃ m', m.removeVariable v = .ok m' ∧ GInv m' ∧ m'.vt = m.vt ∧ okeys m'.adj = (okeys m.adj).erase v ∧
       ∀ x, evalL (1/2) m' x
         = evalL (1/2) m x - (lbias v nv * x v + ((others v nv).map fun p => p.2 * (x v * x p.1)).sum) := by
   have i := g.toLInv
@@ -118,18 +118,19 @@ theorem removeVariable_evalL {m : LBqm Rat} (g : GInv m) (v : Label) (nv : ODict
       = rowStep (fun _ row => ODict.pop row v) v := rfl
   have hrm : m.removeVariable v = .ok { m with adj := nv.foldl (rowStep (fun _ row => ODict.pop row v) v) (ODict.pop m.adj v) } := by
     unfold LBqm.removeVariable; rw [hv]; simp only []; rw [hstep]
-  refine ⟨_, hrm, g.removeVariable_ok v hrm, rfl, ?_⟩
-  intro x
   have hvK : v ∈ okeys m.adj := mem_keys_of_get? _ _ _ hv
   have hmem : (v, nv) ∈ m.adj := mem_of_get? _ _ _ hv
   have hnvn := (g.s.rows v nv hv).1
-  set res := nv.foldl (rowStep (fun _ row => ODict.pop row v) v) (ODict.pop m.adj v) with hres
-  have hresnd : (okeys res).Nodup := foldl_rowStep_nodup _ _ _ _ (okeys_pop_nodup _ g.s.nodup v)
-  have hkeys : okeys res = (okeys m.adj).erase v := by
-    rw [hres, okeys_foldl_rowStep, okeys_pop_erase]
+  have hkeys0 : okeys (nv.foldl (rowStep (fun _ row => ODict.pop row v) v) (ODict.pop m.adj v)) = (okeys m.adj).erase v := by
+    rw [okeys_foldl_rowStep, okeys_pop_erase]
     intro k hk hkv
     rw [mem_okeys_pop _ g.s.nodup]
     exact ⟨hkv, i.closed v nv hmem k hk⟩
+  refine ⟨_, hrm, g.removeVariable_ok v hrm, rfl, hkeys0, ?_⟩
+  intro x
+  set res := nv.foldl (rowStep (fun _ row => ODict.pop row v) v) (ODict.pop m.adj v) with hres
+  have hresnd : (okeys res).Nodup := foldl_rowStep_nodup _ _ _ _ (okeys_pop_nodup _ g.s.nodup v)
+  have hkeys : okeys res = (okeys m.adj).erase v := hkeys0
   have hget : ∀ k, ODict.get? res k
       = if k ∈ okeys nv ∧ k ≠ v then some (ODict.pop ((ODict.get? (ODict.pop m.adj v) k).getD []) v) else ODict.get? (ODict.pop m.adj v) k :=
     fun k => foldl_rowStep_get? _ _ nv hnvn _ k
@@ -188,6 +189,17 @@ theorem removeVariable_evalL {m : LBqm Rat} (g : GInv m) (v : Label) (nv : ODict
 end LBqm
 namespace LBqm
 
+theorem foldl_addLinear_keys (a : Rat) (N : ODict Label Rat) :
+    ∀ (m : LBqm Rat), (∀ p ∈ N, p.1 ∈ okeys m.adj) → okeys (N.foldl (fun m p => m.addLinear p.1 (a * p.2)) m).adj = okeys m.adj := by
+  induction N with
+  | nil => intro m _; rfl
+  | cons p rest ih =>
+    intro m h
+    simp only [List.foldl_cons]
+    have h1 : okeys (m.addLinear p.1 (a * p.2)).adj = okeys m.adj := by
+      unfold LBqm.addLinear; exact okeys_set_mem _ _ _ (h p List.mem_cons_self)
+    rw [ih _ (fun q hq => by rw [h1]; exact h q (List.mem_cons_of_mem _ hq)), h1]
+
 theorem foldl_addLinear_facts (a : Rat) (v : Label) (N : ODict Label Rat) (hN : ∀ p ∈ N, p.1 ≠ v) :
     ∀ (m : LBqm Rat), GInv m →
       GInv (N.foldl (fun m p => m.addLinear p.1 (a * p.2)) m) ∧
@@ -216,7 +228,7 @@ theorem foldl_addLinear_facts (a : Rat) (v : Label) (N : ODict Label Rat) (hN : 
     keeps the invariant and the vartype, and at every assignment that gives `v` the value `a` the fixed model has the value of the
     original -/
 theorem fixVariable_evalL {m : LBqm Rat} (g : GInv m) (v : Label) (hvK : v ∈ okeys m.adj) (a : Rat) :
-    ∃ m', m.fixVariable v a = .ok m' ∧ GInv m' ∧ m'.vt = m.vt ∧ v ∉ okeys m'.adj ∧
+    ∃ m', m.fixVariable v a = .ok m' ∧ GInv m' ∧ m'.vt = m.vt ∧ okeys m'.adj = (okeys m.adj).erase v ∧
       ∀ x, x v = a → evalL (1/2) m' x = evalL (1/2) m x := by
   obtain ⟨nv, hv⟩ := Option.isSome_iff_exists.mp ((isSome_get?_iff _ _).mpr hvK)
   have rv := g.s.rows v nv hv
@@ -229,29 +241,21 @@ theorem fixVariable_evalL {m : LBqm Rat} (g : GInv m) (v : Label) (hvK : v ∈ o
   have hv1 : ODict.get? m1.adj v = some nv := by rw [k1]; exact hv
   have hgl : m1.getLinear v = .ok b := by unfold LBqm.getLinear; rw [hv1]; simp [hb]
   have g2 : GInv { m1 with off := m1.off + a * b } := g1.setOffset _
-  obtain ⟨m', r1, r2, r3, r4⟩ := removeVariable_evalL g2 v nv hv1
+  obtain ⟨m', r1, r2, r3, rk, r4⟩ := removeVariable_evalL g2 v nv hv1
+  have hk1 : okeys m1.adj = okeys m.adj := by
+    rw [hm1]
+    apply foldl_addLinear_keys
+    intro p hp
+    have hp' : p.1 ∈ okeys nv := by
+      unfold others at hp
+      exact List.mem_map.mpr ⟨p, (List.mem_filter.mp hp).1, rfl⟩
+    exact g.toLInv.closed v nv (mem_of_get? _ _ _ hv) p.1 hp'
   refine ⟨m', ?_, r2, by rw [r3]; exact k3, ?_, ?_⟩
   · unfold LBqm.fixVariable
     rw [hnb]
     simp only [bind, Except.bind, ← hm1, hgl]
     exact r1
-  · -- `v` is gone
-    intro hmem
-    have hrm := r1
-    unfold LBqm.removeVariable at hrm
-    rw [hv1] at hrm
-    simp only [Except.ok.injEq] at hrm
-    have hstep : (fun (adj : ODict Label (ODict Label Rat)) (p : Label × Rat) =>
-        if p.1 = v then adj else ODict.set adj p.1 (ODict.pop ((ODict.get? adj p.1).getD []) v))
-        = rowStep (fun _ row => ODict.pop row v) v := rfl
-    rw [hstep] at hrm
-    have hnone : ODict.get? m'.adj v = none := by
-      rw [← hrm]
-      simp only []
-      rw [foldl_rowStep_get? _ _ nv rv.1, get?_pop _ g2.s.nodup]
-      simp
-    have := (isSome_get?_iff m'.adj v).mpr hmem
-    rw [hnone] at this; simp at this
+  · rw [rk]; simp only []; rw [hk1]
   · intro x hx
     rw [r4 x]
     have hl : lbias v nv = b := by unfold lbias; rw [hb]; rfl
@@ -261,6 +265,41 @@ theorem fixVariable_evalL {m : LBqm Rat} (g : GInv m) (v : Label) (hvK : v ∈ o
     have e1 : ((others v nv).map fun p => a * p.2 * x p.1) = (others v nv).map fun p => p.2 * (a * x p.1) := by
       apply List.map_congr_left; intro p _; ring
     rw [e1]; ring
+
+/-- **several variables on the dict back-end**: for distinct variables of the model, in the order given, the loop succeeds, the
+    remaining variables are the others in their order, and the result agrees with the original at every assignment that
+    gives the fixed variables their values (simultaneous substitution) -/
+theorem fixVariables_evalL (fixed : List (Label × Rat)) :
+    ∀ (m : LBqm Rat), GInv m → (fixed.map (·.1)).Nodup → (∀ p ∈ fixed, p.1 ∈ okeys m.adj) →
+      ∃ m', fixVariables m fixed = .ok m' ∧ GInv m' ∧ m'.vt = m.vt ∧
+        okeys m'.adj = (okeys m.adj).filter (fun l => !(fixed.map (·.1)).contains l) ∧
+        ∀ x, (∀ p ∈ fixed, x p.1 = p.2) → evalL (1/2) m' x = evalL (1/2) m x := by
+  induction fixed with
+  | nil =>
+    intro m g _ _
+    exact ⟨m, rfl, g, rfl, by simp, fun x _ => rfl⟩
+  | cons p rest ih =>
+    intro m g hnd hall
+    simp only [List.map_cons, List.nodup_cons] at hnd
+    obtain ⟨m1, h1, g1, v1, k1, e1⟩ := fixVariable_evalL g p.1 (hall p List.mem_cons_self) p.2
+    have hall1 : ∀ q ∈ rest, q.1 ∈ okeys m1.adj := by
+      intro q hq
+      rw [k1]
+      have hne : q.1 ≠ p.1 := fun e => hnd.1 (e ▸ List.mem_map.mpr ⟨q, hq, rfl⟩)
+      exact (List.mem_erase_of_ne hne).mpr (hall q (List.mem_cons_of_mem _ hq))
+    obtain ⟨m2, h2, g2, v2, k2, e2⟩ := ih m1 g1 hnd.2 hall1
+    refine ⟨m2, ?_, g2, by rw [v2, v1], ?_, ?_⟩
+    · simp only [fixVariables, h1]; exact h2
+    · rw [k2, k1, List.Nodup.erase_eq_filter g.s.nodup, List.filter_filter]
+      apply List.filter_congr
+      intro l _
+      simp only [List.map_cons, List.contains_cons]
+      by_cases hl : l = p.1
+      · subst hl; simp
+      · have : (l == p.1) = false := by simpa using hl
+        simp [this, hl]
+    · intro x hx
+      rw [e2 x (fun q hq => hx q (List.mem_cons_of_mem _ hq)), e1 x (hx p List.mem_cons_self)]
 
 end LBqm
 
